@@ -245,6 +245,8 @@ class Ctx:
         self.fn_stack: list[str] = []
         self.frames: list = []
         self.notes: list[str] = []
+        self.last_case: dict = {}
+        self.loop_k = None
 
     # -- decisions ---------------------------------------------------------
     def decide(self, n, label):
@@ -691,6 +693,9 @@ class Interp:
         unit = self.ctx.unit
         contract = unit.contract_for(f.qualname, self.ctx)
         if contract is not None:
+            if f.is_async and not f.is_gen:
+                # a coroutine under contract: the contract is applied where it is awaited
+                return AwaitableVal("contract", lambda: contract.apply(self, f, args, kwargs))
             return contract.apply(self, f, args, kwargs)
         env = self.bind_args(f, args, kwargs)
         if isinstance(f.node, ast.Lambda):
@@ -726,6 +731,8 @@ class Interp:
         if isinstance(v, CoroVal):
             return self.run_body(v.func, v.env)
         if isinstance(v, AwaitableVal):
+            if v.kind == "contract":
+                return v.payload()
             return self.lib.await_model(self, v)
         if is_ref(v):
             return self.lib.await_ref(self, v)
